@@ -56,8 +56,8 @@ G_HOST = ["a.test", "A.Test", "a.test.", "1.2.3.4", "01.2.3.4", "1.2.3.4.5", "[:
 G_PORT = [None, "", "0", "80", "080", "65535", "65536", "99999999999", "8a", "-1", " 80"]
 G_PATH = [None, "/", "/a/./b/../c", "/..", "/../..", "//", "/%7e%7E", "/%zz", "/\u00e9",
           "/a b", "/a\\b", ";p"]
-G_QUERY = [None, "", "a=b", "?", "%41%zz", "\u00e9", "#"]
-G_FRAGMENT = [None, "", "f", "?#", "\u00e9"]
+G_QUERY = [None, "", "a=b", "?", "%41%zz", "\u00e9", "#", "%41%4\u0661"]  # last: '%' + hex digit + NON-ASCII decimal digit
+G_FRAGMENT = [None, "", "f", "?#", "\u00e9", "%\uff11\uff12"]  # last: '%' + two FULLWIDTH digits
 
 DOT_ALPHABET = ["/", ".", "a"]
 DOT_PREFIXES = ["http://h", "http:", "https://u@h:1", ""]
